@@ -31,6 +31,15 @@ impl SecondLevelHTLCOutput {
 //@fn vls-core/src/monitor.rs :: impl SecondLevelHTLCOutput :: new props=C14
     ensures r.outpoint == outpoint, !r.spent,
 //@end
+//@fn vls-core/src/monitor.rs :: impl SecondLevelHTLCOutput :: is_spent props=C14
+    ensures r == self.spent,
+//@end
+//@fn vls-core/src/monitor.rs :: impl SecondLevelHTLCOutput :: set_spent props=C14
+    ensures *final(self) == (SecondLevelHTLCOutput { spent, ..*old(self) }),
+//@end
+//@fn vls-core/src/monitor.rs :: impl SecondLevelHTLCOutput :: matches_outpoint props=C14
+    ensures r == (self.outpoint == *outpoint),
+//@end
 }
 
 impl ClosingOutpoints {
@@ -65,8 +74,29 @@ impl ClosingOutpoints {
     ensures co_abs(*final(self)) == (CoAbs { second: second_remove(co_abs(*old(self)).second, *outpoint), ..co_abs(*old(self)) }),
 //@end
 
-//@fn vls-core/src/monitor.rs :: impl ClosingOutpoints :: is_all_spent mode=trusted
-    ensures r == co_all_spent(co_abs(*self)),
+//@fn vls-core/src/monitor.rs :: impl ClosingOutpoints :: is_all_spent props=C14,C15 optiters optclosures
+    ensures r == co_all_spent(co_abs(*self)),                                                     //[C15.all-spent.every-output-of-the-node]
+//@loop 1 iter=it1
+        invariant vx_acc1 == (forall|j: int| 0 <= j < it1.index@ ==> #[trigger] self.htlc_spents@[j]),
+//@loop 2 iter=it2
+        invariant vx_acc2 == (forall|j: int| 0 <= j < it2.index@ ==> (#[trigger] self.second_level_htlc_outputs@[j]).spent),
+//@proof before /our_output_spent && htlc_outputs_spent && second_level_htlcs_spent/
+        proof {
+            let sec = self.second_level_htlc_outputs@;
+            let c = co_abs(*self);
+            assert(c.second.len() == sec.len());
+            assert forall|i: int| 0 <= i < sec.len() implies (#[trigger] c.second[i]).1 == sec[i].spent by { }
+            if our_output_spent && htlc_outputs_spent && second_level_htlcs_spent {
+                assert forall|i: int| 0 <= i < c.second.len() implies (#[trigger] c.second[i]).1 by { assert(sec[i].spent); }
+                assert(co_all_spent(c));
+            } else if !second_level_htlcs_spent {
+                let j = choose|j: int| 0 <= j < sec.len() && !(#[trigger] sec[j]).spent;
+                assert(!c.second[j].1);
+                assert(!co_all_spent(c));
+            } else {
+                assert(!co_all_spent(c));
+            }
+        }
 //@end
 
 } // impl ClosingOutpoints
@@ -78,11 +108,11 @@ impl State {
 //@fn vls-core/src/monitor.rs :: impl State :: is_done mode=trusted
 //@end
 
-//@fn vls-core/src/monitor.rs :: impl State :: is_closing_swept mode=trusted
+//@fn vls-core/src/monitor.rs :: impl State :: is_closing_swept props=C14,C15 optclosures
     ensures r == abs_closing_swept(st_abs(*self)),
 //@end
 
-//@fn vls-core/src/monitor.rs :: impl State :: is_our_output_swept mode=trusted
+//@fn vls-core/src/monitor.rs :: impl State :: is_our_output_swept props=C14,C15 optclosures
     ensures r == abs_our_output_swept(st_abs(*self)),
 //@end
 
